@@ -230,3 +230,115 @@ func reachesDiagnostic(g *ssa.Function, seen map[*ssa.Function]bool, depth int) 
 	})
 	return found
 }
+
+// C07/collected-is-used: the model visitor collects what it finds in local tables (fields by name, match pairs by key field) and hands
+// them to the packet it builds. A table that is filled and then only measured (`len(m) > 0`) - never looked up, ranged over, stored or
+// passed on - means what was collected is dropped; a table that is only ever read - never filled, never handed to anybody who could fill it - means the
+// same from the other side. Both are shapes of "the declaration is there, its consequence in the model is not".
+func collectedIsUsed(w *World, r *Report, prop string) {
+	rule := prop + "/collected-is-used"
+	n := 0
+	for _, fn := range parsePhaseFuncs(w) {
+		if fn.Pkg != w.Parser {
+			continue
+		}
+		cnt := 0
+		forEachInstr(fn, func(_ *ssa.BasicBlock, ins ssa.Instruction) {
+			mm, ok := ins.(*ssa.MakeMap)
+			if !ok || mm.Referrers() == nil {
+				return
+			}
+			// the map value itself or, when a closure captures the variable, the loads of its cell
+			vals := []ssa.Value{mm}
+			for _, ref := range *mm.Referrers() {
+				if st, ok := ref.(*ssa.Store); ok && st.Val == ssa.Value(mm) {
+					if al, ok := st.Addr.(*ssa.Alloc); ok {
+						if stores, esc := cellStores(al); !esc && len(stores) == 1 {
+							vals = append(vals, cellLoads(al)...)
+						} else {
+							vals = nil // escapes or is re-assigned: not judged
+						}
+					}
+				}
+			}
+			if vals == nil {
+				return
+			}
+			written, used, readOnly := false, false, true
+			for _, v := range vals {
+				if v.Referrers() == nil {
+					continue
+				}
+				for _, ref := range *v.Referrers() {
+					switch x := ref.(type) {
+					case *ssa.MapUpdate:
+						if x.Map == v {
+							written = true
+						} else {
+							used = true
+						}
+					case *ssa.DebugRef:
+					case *ssa.Store:
+						if _, isCell := x.Addr.(*ssa.Alloc); !isCell || x.Val != v {
+							used, readOnly = true, false
+						} else if len(vals) == 1 {
+							used, readOnly = true, false
+						}
+					case *ssa.Call:
+						if bi, ok := x.Call.Value.(*ssa.Builtin); ok && bi.Name() == "len" {
+							continue
+						}
+						used, readOnly = true, false // handed to somebody who may fill or read it
+					case *ssa.Lookup, *ssa.Range:
+						used = true
+					default:
+						used, readOnly = true, false
+					}
+				}
+			}
+			n++
+			cnt++
+			key := fmt.Sprintf("%s: local table #%d is filled and used", fnKey(fn), cnt)
+			switch {
+			case written && !used:
+				r.fail(rule, key, w.instrPos(mm), "the table is filled but never looked up, ranged over, stored or passed on (only measured): what the routine collected in it is dropped")
+			case !written && used && readOnly:
+				r.fail(rule, key, w.instrPos(mm), "the table is looked up or ranged over but nothing is ever put into it (and it is handed to nobody who could): the declarations it should hold are never found")
+			default:
+				r.pass(rule, key, w.instrPos(mm), "")
+			}
+		})
+	}
+	if n == 0 {
+		r.pass(rule, "local tables found", "internal/parser/packet_dsl_parser.go", "the model visitor keeps no local tables")
+	}
+}
+
+// cellLoads: every load of a local variable's cell - in the declaring function and in the closures that capture it.
+func cellLoads(al *ssa.Alloc) []ssa.Value {
+	var out []ssa.Value
+	var walk func(addr ssa.Value, depth int)
+	walk = func(addr ssa.Value, depth int) {
+		if addr.Referrers() == nil || depth > 6 {
+			return
+		}
+		for _, ref := range *addr.Referrers() {
+			switch x := ref.(type) {
+			case *ssa.UnOp:
+				if x.X == addr {
+					out = append(out, x)
+				}
+			case *ssa.MakeClosure:
+				if g, ok := x.Fn.(*ssa.Function); ok {
+					for j, b := range x.Bindings {
+						if b == addr && j < len(g.FreeVars) {
+							walk(g.FreeVars[j], depth+1)
+						}
+					}
+				}
+			}
+		}
+	}
+	walk(al, 0)
+	return out
+}
